@@ -42,4 +42,13 @@ def instances():
     for name, cls, orc in REL:
         for a, b in (("b", "b"), ("i", "i"), ("i", "d"), ("d", "i"), ("d", "d"), ("n", "n"), ("n", "i"), ("i", "n"), ("b", "n"), ("n", "d")):
             out.append(binop(name, cls, orc, a, b, ["C04", "C01", "C02", "C05"], tier="quick" if (a, b) in (("b", "b"), ("i", "i"), ("n", "n"), ("n", "i"), ("b", "n")) else "thorough"))
+    for name, cls, orc in LOGIC + REL[:2]:
+        for cn, cname in ((0, "null"), (1, "true"), (2, "false")):
+            for b in "bn":
+                for first in (1, 0):
+                    quick = name in ("bior", "band", "eq") and b == "b" and (first == 1 or cn == 0)
+                    i = binop(name, cls, orc, "b", b, ["C04", "C05", "C01"], tier="quick" if quick else "thorough")
+                    i.id = "op.const.%s.%s.%s.%s" % (name, cname, b, "cx" if first else "xc"); i.entry = "vx_constnode"; i.defs = i.defs + ["VX_CONSTNODE=%d" % cn] + (["VX_CFIRST=1"] if first else [])
+                    i.bounds = "operator over the real %s constant node (%s operand) and a symbolic boolean / null variable, evaluated twice" % (cname, "first" if first else "second")
+                    out.append(i)
     return out
